@@ -39,3 +39,63 @@ Proof. eexists. split; [vm_compute; reflexivity|]. reflexivity. Qed.
 
 Example missing_sender_rejected : deser TTimeline (remove s!"sender" (ev_message s!"m.room.message" [])) = Err 0.
 Proof. vm_compute. reflexivity. Qed.
+
+(** * The content clause through the derive model: the hypotheses of [C18_content_*] are met by
+    ordinary contents, and the interesting branches (skipped members, defaults, unknown members, tag
+    members, rejected input) all occur. *)
+From Base Require JsonText.
+From Gen Require SerdeSchemas.
+From C18 Require Serde SerdeSpec SerdeProofs SpecSchemas SerdeBridge.
+
+Definition acl_in : json :=
+  JObj [ (s!"allow", JArr [JStr s!"*"]); (s!"allow_ip_literals", JBool true); (s!"deny", JArr []);
+         (s!"x.unknown", JInt 1) ].
+
+(** m.room.server_acl: `allow_ip_literals: true` and the empty `deny` are left out when printing (they
+    are the defaults the missing-member rule re-creates), the unknown member is dropped, and the printed
+    text reads back as the same typed value. *)
+Example server_acl_fixpoint :
+  exists t v j',
+    SerdeBridge.find_schema s!"State" s!"m.room.server_acl" SerdeSchemas.content_schemas = Some t /\
+    Serde.deser SerdeBridge.id_valid t acl_in = Some v /\ Serde.ser t v = Some j' /\
+    JsonText.print j' = s!"{""allow"":[""*""]}" /\ Serde.deser SerdeBridge.id_valid t j' = Some v.
+Proof. do 3 eexists. repeat split; vm_compute; reflexivity. Qed.
+
+(** a specification-shaped m.room.member content with a third-party invite: conforms, uses no ruma-only
+    member name, and is accepted *)
+Definition member_in : json :=
+  JObj [ (s!"displayname", JStr s!"Alice"); (s!"membership", JStr s!"invite");
+         (s!"third_party_invite",
+          JObj [ (s!"display_name", JStr s!"a...@e.org");
+                 (s!"signed", JObj [ (s!"mxid", JStr s!"@alice:e.org");
+                                     (s!"signatures", JObj [(s!"id.e.org", JObj [(s!"ed25519:0", JStr s!"c2ln")])]);
+                                     (s!"token", JStr s!"tok") ]) ]) ].
+
+Example member_spec_shaped :
+  exists s t,
+    SerdeBridge.find_schema s!"State" s!"m.room.member" SpecSchemas.spec_contents = Some s /\
+    SerdeBridge.find_schema s!"State" s!"m.room.member" SerdeSchemas.content_schemas = Some t /\
+    SerdeSpec.conforms SerdeBridge.id_valid s member_in = true /\ SerdeSpec.extra_free s t member_in = true /\
+    exists v, Serde.deser SerdeBridge.id_valid t member_in = Some v.
+Proof. do 2 eexists. repeat split; try (vm_compute; reflexivity). eexists. vm_compute. reflexivity. Qed.
+
+(** an invalid user ID in `mxid` is rejected (the validators are C10's models, not a stub) *)
+Example member_bad_mxid_rejected :
+  forall t, SerdeBridge.find_schema s!"State" s!"m.room.member" SerdeSchemas.content_schemas = Some t ->
+  Serde.deser SerdeBridge.id_valid t
+    (JObj [ (s!"membership", JStr s!"invite");
+            (s!"third_party_invite",
+             JObj [ (s!"display_name", JStr s!"a"); 
+                    (s!"signed", JObj [ (s!"mxid", JStr s!"alice"); (s!"signatures", JObj []); (s!"token", JStr s!"t") ]) ]) ]) = None.
+Proof. intros t H. vm_compute in H. injection H as <-. vm_compute. reflexivity. Qed.
+
+(** the tag member of a tagged struct (m.reaction's relation) is written as the constant and not looked
+    at on input *)
+Example reaction_tag :
+  exists t v j',
+    SerdeBridge.find_schema s!"MessageLike" s!"m.reaction" SerdeSchemas.content_schemas = Some t /\
+    Serde.deser SerdeBridge.id_valid t
+      (JObj [(s!"m.relates_to", JObj [(s!"event_id", JStr s!"$e:x.org"); (s!"key", JStr s!"+1"); (s!"rel_type", JStr s!"bogus")])]) = Some v /\
+    Serde.ser t v = Some j' /\
+    JsonText.print j' = s!"{""m.relates_to"":{""rel_type"":""m.annotation"",""event_id"":""$e:x.org"",""key"":""+1""}}".
+Proof. do 3 eexists. repeat split; vm_compute; reflexivity. Qed.
